@@ -112,23 +112,24 @@ def g_blobs(desc):
             (r0, zc + sep + du, wr, wz, 1.0),
         ]
     # affine map of the whole configuration (see g_geom): R' = R + rshift, Z' = zscale * Z
-    rs, zs = g_geom(desc)[:2]
-    return [(r + rs, z * zs, a, b * zs, c) for r, z, a, b, c in blobs]
+    rs, zs, _, z0 = g_geom(desc)
+    return [(r + rs, z * zs + z0, a, b * zs, c) for r, z, a, b, c in blobs]
 
 
 def g_geom(desc):
-    """(rshift, zscale, rmax_extra) of a G descriptor. The reference configuration lives in the box
-    R in [1, 2 + rmax_extra], Z in [-0.7, 0.7]; psi, box and wall are mapped by R' = R + rshift,
-    Z' = zscale * Z (a 'spherical-tokamak-like' tall, small-R box for rshift < 0, zscale > 1)."""
+    """(rshift, zscale, rmax_extra, zshift) of a G descriptor. The reference configuration lives in
+    the box R in [1, 2 + rmax_extra], Z in [-0.7, 0.7]; psi, box and wall are mapped by
+    R' = R + rshift, Z' = zscale * Z + zshift (a 'spherical-tokamak-like' tall, small-R box for
+    rshift < 0, zscale > 1; zshift != 0: the midplane is not at Z = 0)."""
     g = desc.get("geom") or {}
-    return float(g.get("rshift", 0.0)), float(g.get("zscale", 1.0)), float(g.get("rmax_extra", 0.0))
+    return float(g.get("rshift", 0.0)), float(g.get("zscale", 1.0)), float(g.get("rmax_extra", 0.0)), float(g.get("zshift", 0.0))
 
 
 def g_box(desc):
     if "box" in desc:
         return list(desc["box"])
-    rs, zs, ex = g_geom(desc)
-    return [1.0 + rs, 2.0 + ex + rs, -0.7 * zs, 0.7 * zs]
+    rs, zs, ex, z0 = g_geom(desc)
+    return [1.0 + rs, 2.0 + ex + rs, -0.7 * zs + z0, 0.7 * zs + z0]
 
 
 def g_function(desc):
@@ -196,9 +197,9 @@ def g_wall(desc):
     """Wall of a G descriptor: built in the reference box, then mapped like psi."""
     if "box" in desc:
         return wall_polygon(desc.get("wall", {"kind": "rect"}), desc["box"])
-    rs, zs, ex = g_geom(desc)
+    rs, zs, ex, z0 = g_geom(desc)
     ref = wall_polygon(desc.get("wall", {"kind": "rect"}), [1.0, 2.0 + ex, -0.7, 0.7])
-    return [(float(r + rs), float(z * zs)) for r, z in ref]
+    return [(float(r + rs), float(z * zs + z0)) for r, z in ref]
 
 
 def wall_polygon(w, box):
